@@ -10,6 +10,17 @@ Decided:
         TypeError) before handing (tag, body) to ``parse`` - so a short body can never be parsed as a record;
         ``FlowReader.stream`` converts every exception such a truncation raises in ``load`` into FlowReadException
         (or a clean end), never lets it escape raw.
+        The stream writer is the class ``Save`` really instantiates for ``self.stream``; its ``add`` is resolved along the
+        MRO and ``super().add(...)`` / ``self.<helper>(...)`` calls are inlined, so delegating the write to a base class or a
+        helper is analysed (and a delegate that does not flush is a violation), not refused.
+  R37.3 loader ("loading the truncated file yields exactly the flows that were completely written before that point ...
+        and then ... reports a flow-read error"): the file loaders (``ReadFile.load_flows``, ``View.load_file``) consume the
+        generator ``FlowReader.stream()`` LAZILY - the delivery of a flow (``master.load_flow`` / ``View.add``) is in the body
+        of the ``for`` loop that iterates the generator itself (possibly through lazy wrappers: generator expression,
+        ``filter``/``map``/``iter``/``enumerate``/``itertools.*``), with the loop item as its argument.  The error for the torn
+        tail is raised by the generator AFTER the last complete flow; an eager collector (list/set/dict comprehension,
+        ``list()``/``tuple()``/``sorted()``/``.extend()``/``*``-unpacking, or appending in the reading loop and delivering in
+        a second loop / in batches) lets that error abort the hand-over of every complete flow read before it.
 NOT decided: OS-level durability (power loss), value-level behaviour of parse on complete records, the HAR reader.
 Dropped from DESIGN: R37.3 (save_flow/done ordering) is fully covered by R39.2 and is not a crash-consistency
 condition; "the empty-file case maps to a clean end" is not armed because the property allows either a clean end or
@@ -20,6 +31,10 @@ from __future__ import annotations
 
 import ast
 
+from ..core import AnalysisError
+from ..core import norm
+from ..model import attr_chain
+from ..model import enclosing_func
 from ..model import last_attr
 from ..selftest import Mutant
 from ._helpers_E import params
@@ -31,10 +46,12 @@ from ._helpers_E import show
 PROP = "C37"
 REG = {
     "strength": "partial",
-    "technique": "path enumeration (must-follow / order of reads) over FilteredFlowWriter.add, tnetstring.dump/load and FlowReader.stream with implicit exception edges",
+    "technique": "path enumeration (must-follow / order of reads) over the stream writer's add (MRO-resolved, delegates inlined), tnetstring.dump/load and "
+    "FlowReader.stream with implicit exception edges; def-use of the stream() generator in the file loaders",
     "claim": "the stream writer flushes after every record and hands each record to the file in one write; the reader reads exactly the "
     "prefixed length and then a trailing type tag that fails on EOF, and every exception a truncation raises in load is converted to "
-    "FlowReadException or a clean end.",
+    "FlowReadException or a clean end; the file loaders hand every flow over inside the loop that iterates the stream() generator lazily, "
+    "so the error for a torn tail cannot discard complete flows.",
     "note": "Crash = the process stops; file objects are Python buffered binary files (read(n) returns fewer bytes only at EOF). "
     "Loops unrolled once.",
 }
@@ -52,33 +69,238 @@ def _strict_tag(ev, fh):
         return "TypeError"
     return None
 
+SAVE = "mitmproxy/addons/save.py"
+READFILE = "mitmproxy/addons/readfile.py"
+VIEW = "mitmproxy/addons/view.py"
+
+
+def _stream_writers(ctx):
+    """(rel, qual) of every class ``Save`` instantiates for ``self.stream`` - the writer of the stream file."""
+    save = ctx.model.cls(SAVE, "Save")
+    mod = ctx.model.module(SAVE)
+    out = []
+    for n in ast.walk(save):
+        if isinstance(n, (ast.Assign, ast.AnnAssign)):
+            tg = n.targets if isinstance(n, ast.Assign) else [n.target]
+            if not any(attr_chain(t) == "self.stream" for t in tg) or n.value is None:
+                continue
+            if isinstance(n.value, ast.Constant) and n.value.value is None:
+                continue
+            ctx.require(isinstance(n.value, ast.Call), f"Save: self.stream = {norm(n.value)} is not a constructor call (not modelled)")
+            r = ctx.model.resolve_name(mod, n.value.func)
+            ctx.require(r is not None and isinstance(r[1], ast.ClassDef), f"Save: the stream writer {norm(n.value.func)} does not resolve to a class of the repository")
+            k = (r[0].rel, getattr(r[1], "_qual", r[1].name))
+            if k not in out:
+                out.append(k)
+    ctx.require(out, "Save never assigns a writer to self.stream (anchor moved)")
+    return out
+
+
+def _delegate_resolver(ctx, wrel, wqual):
+    """Inline ``super().m(...)`` (next definition after the calling method's class in the writer's MRO) and
+    ``self.m(...)`` (first definition along the writer's MRO)."""
+    mro = ctx.model.mro(wrel, wqual)
+
+    def find(classes, name):
+        for m, c in classes:
+            for st in c.body:
+                if isinstance(st, (ast.FunctionDef, ast.AsyncFunctionDef)) and st.name == name:
+                    return st
+        return None
+
+    def resolver(call):
+        f = call.func
+        if not isinstance(f, ast.Attribute):
+            return None
+        v = f.value
+        if isinstance(v, ast.Name) and v.id == "self":
+            return find(mro, f.attr)
+        if isinstance(v, ast.Call) and isinstance(v.func, ast.Name) and v.func.id == "super" and not v.args and not v.keywords:
+            fn = enclosing_func(call)
+            owner = getattr(fn, "_parent", None)
+            idx = [i for i, (m, c) in enumerate(mro) if c is owner]
+            if not idx:
+                raise AnalysisError(f"super() used outside the stream writer's MRO at {norm(call)}")
+            return find(mro[idx[0] + 1:], f.attr)  # None: the base is outside the repository (object) - nothing to inline
+        return None
+
+    return resolver
+
+
+# ---- R37.3: lazy consumption of FlowReader.stream()
+
+_LAZY_FUNCS = {"filter", "map", "iter", "enumerate", "islice", "takewhile", "dropwhile", "chain", "filterfalse", "starmap", "cast"}
+_EAGER_FUNCS = {"list", "tuple", "sorted", "set", "frozenset", "reversed", "deque", "extend", "dict", "sum", "max", "min", "len", "join", "Counter", "array"}
+
+
+def _is_reader_stream(fn, call):
+    """``<FlowReader(...)>.stream()`` or ``<name bound to FlowReader(...)>.stream()``."""
+    if not (isinstance(call, ast.Call) and isinstance(call.func, ast.Attribute) and call.func.attr == "stream" and not call.args and not call.keywords):
+        return False
+    recv = call.func.value
+    if isinstance(recv, ast.Call):
+        return last_attr(recv.func) == "FlowReader"
+    if isinstance(recv, ast.Name):
+        srcs = [s.value for s in ast.walk(fn) if isinstance(s, ast.Assign) and any(isinstance(t, ast.Name) and t.id == recv.id for t in s.targets)]
+        return bool(srcs) and all(isinstance(v, ast.Call) and last_attr(v.func) == "FlowReader" for v in srcs)
+    return False
+
+
+def _consumers(fn, node, seen=()):
+    """How is the (lazy) iterable ``node`` consumed?  -> [("for", For) | ("eager", node, what)].
+    Lazy wrappers are followed; anything else is refused (AnalysisError)."""
+    p = getattr(node, "_parent", None)
+    if isinstance(p, (ast.For, ast.AsyncFor)) and p.iter is node:
+        return [("for", p)]
+    if isinstance(p, ast.comprehension) and p.iter is node:
+        comp = p._parent
+        if isinstance(comp, ast.GeneratorExp):
+            if comp.generators[0] is not p:
+                return [("eager", comp, "an inner clause of a generator expression (re-read for every outer item)")]
+            return _consumers(fn, comp, seen)
+        return [("eager", comp, {"ListComp": "a list comprehension", "SetComp": "a set comprehension", "DictComp": "a dict comprehension"}[type(comp).__name__])]
+    if isinstance(p, ast.Starred):
+        return [("eager", p._parent, "*-unpacking")]
+    if isinstance(p, ast.Call) and any(a is node for a in p.args):
+        name = last_attr(p.func)
+        if name in _LAZY_FUNCS:
+            return _consumers(fn, p, seen)
+        if name in _EAGER_FUNCS:
+            return [("eager", p, f"{name}()")]
+        raise AnalysisError(f"{fn.name}: the stream() generator is passed to {norm(p.func)}(): laziness of that consumer is not modelled")
+    if isinstance(p, ast.Assign) and p.value is node and len(p.targets) == 1 and isinstance(p.targets[0], ast.Name):
+        name = p.targets[0].id
+        if name in seen:
+            raise AnalysisError(f"{fn.name}: cyclic rebinding of {name}")
+        stores = [n for n in ast.walk(fn) if isinstance(n, ast.Name) and n.id == name and isinstance(n.ctx, (ast.Store, ast.Del))]
+        if len(stores) != 1:
+            raise AnalysisError(f"{fn.name}: {name} (bound to the stream() generator) is assigned {len(stores)}x: not modelled")
+        out = []
+        for n in ast.walk(fn):
+            if isinstance(n, ast.Name) and n.id == name and isinstance(n.ctx, ast.Load):
+                out += _consumers(fn, n, seen + (name,))
+        if not out:
+            raise AnalysisError(f"{fn.name}: {name} (the stream() generator) is never consumed")
+        return out
+    raise AnalysisError(f"{fn.name}: the stream() generator is used in {type(p).__name__} `{norm(p)[:80]}`: not modelled")
+
+
+def _item_names(loop):
+    """Names carrying the loop item inside the body: the target names and locals derived from them."""
+    names = {n.id for n in ast.walk(loop.target) if isinstance(n, ast.Name)}
+    changed = True
+    while changed:
+        changed = False
+        for st in ast.walk(loop):
+            if isinstance(st, (ast.Assign, ast.AnnAssign, ast.NamedExpr)) and getattr(st, "value", None) is not None:
+                if any(isinstance(n, ast.Name) and n.id in names for n in ast.walk(st.value)):
+                    tg = st.targets if isinstance(st, ast.Assign) else [st.target]
+                    for t in tg:
+                        for n in ast.walk(t):
+                            if isinstance(n, ast.Name) and n.id not in names:
+                                names.add(n.id)
+                                changed = True
+    return names
+
+
+def _nearest_loop(node, fn):
+    n = getattr(node, "_parent", None)
+    child = node
+    while n is not None and n is not fn:
+        if isinstance(n, (ast.For, ast.AsyncFor, ast.While)) and any(child is b for b in n.body):
+            return n
+        if isinstance(n, (ast.ListComp, ast.SetComp, ast.DictComp, ast.GeneratorExp)):
+            return n
+        child, n = n, getattr(n, "_parent", None)
+    return None
+
+
+def _lazy_loader(ctx, rel, qual, sink_name, sink_desc):
+    """R37.3 for one loader: every delivery call (``<...>.<sink_name>(...)``, directly or through a same-class helper
+    called with the item) sits in the body of the for loop that iterates FlowReader.stream() lazily."""
+    fn = ctx.func(rel, qual)
+    cls_qual = qual.rsplit(".", 1)[0]
+    streams = [c for c in ast.walk(fn) if _is_reader_stream(fn, c)]
+    ctx.require(len(streams) == 1, f"{qual}: {len(streams)} FlowReader(...).stream() calls (expected one; loader shape not modelled)")
+    cons = _consumers(fn, streams[0])
+    ok = True
+    loops = []
+    for c in cons:
+        if c[0] == "eager":
+            ok = False
+            ctx.fail("R37.3", (rel, qual, c[1]), f"{fn.name}: stream() drained by {c[2]}",
+                     f"the generator FlowReader.stream() is consumed eagerly by {c[2]} before any flow reaches {sink_desc}: the flow-read error of a "
+                     "truncated tail aborts the collection and every complete flow in front of it is lost")
+        else:
+            loops.append(c[1])
+
+    def delivers(call, depth=0):
+        """Is ``call`` the sink, or a same-class helper whose body reaches the sink?"""
+        cn = norm(call.func)
+        if cn == sink_name or cn.endswith("." + sink_name):
+            return True
+        f = call.func
+        if depth < 2 and isinstance(f, ast.Attribute) and isinstance(f.value, ast.Name) and f.value.id == "self":
+            hit = ctx.model.method(rel, cls_qual, f.attr)
+            if hit is not None and hit[1] is not fn:
+                return any(isinstance(n, ast.Call) and delivers(n, depth + 1) for n in ast.walk(hit[1]))
+        return False
+
+    sinks = [n for n in ast.walk(fn) if isinstance(n, ast.Call) and delivers(n)]
+    ctx.require(sinks or not ok, f"{qual}: no delivery call ({sink_name}) found (loader shape not modelled)")
+    for loop in loops:
+        items = _item_names(loop)
+        inside = [s for s in sinks if _nearest_loop(s, fn) is loop]
+        fed = [s for s in inside if any(isinstance(n, ast.Name) and n.id in items for a in list(s.args) + [k.value for k in s.keywords] for n in ast.walk(a))]
+        if not fed:
+            ok = False
+            ctx.fail("R37.3", (rel, qual, loop), f"{fn.name}: `for {norm(loop.target)} in {norm(loop.iter)[:60]}` does not deliver its item",
+                     f"the loop that reads the flows does not hand each flow to {sink_desc} before the next record is read (collected first / delivered in "
+                     "batches): the flow-read error of a truncated tail is raised while complete flows are still undelivered")
+    for s in sinks:
+        if ok and _nearest_loop(s, fn) not in loops:
+            ok = False
+            ctx.fail("R37.3", (rel, qual, s), f"{fn.name}: {norm(s)[:80]} outside the reading loop",
+                     f"flows are handed to {sink_desc} outside the loop that iterates FlowReader.stream(): they are delivered only after the whole file was read")
+    if ok:
+        ctx.ok("R37.3", f"{qual}: {sink_desc} is fed per item inside `for {norm(loops[0].target)} in {norm(loops[0].iter)[:50]}` (lazy; {len(sinks)} delivery call(s))")
+
+
 
 def check(ctx):
     ctx.rule("R37.1", "stream writer: flush follows the record on every writing path; dump = one write of the fully serialised record")
     ctx.rule("R37.2", "reader: exact-length body read, then a trailing tag read that fails on EOF, then parse(tag, body); truncation exceptions become FlowReadException")
+    ctx.rule("R37.3", "loaders: FlowReader.stream() is consumed lazily - each flow is delivered inside the loop iterating the generator, so the error of a torn tail cannot discard complete flows")
     ctx.assume("crash model: the writing process stops at an arbitrary byte; regular buffered binary files")
 
-    # ---- R37.1 flush after the record
-    add = ctx.func(IO, "FilteredFlowWriter.add")
-    trs, eng = paths(add, keep=lambda e: e[0] == "call" and (e[1].endswith("dump") or e[1].endswith(".write") or e[1].endswith(".flush") or e[1].endswith(".close")))
-    ctx.paths += len(trs)
-    writing = 0
-    bad = False
-    for t, how in trs:
-        if how != "return":
-            continue
-        w = [i for i, e in enumerate(t) if e[0] == "call" and ((e[1].endswith("dump") and any(a.split("=", 1)[-1] == "self.fo" for a in e[2])) or e[1] == "self.fo.write")]
-        if not w:
-            continue
-        writing += 1
-        fl = [i for i, e in enumerate(t) if e[0] == "call" and e[1] in ("self.fo.flush", "self.fo.close")]
-        if not fl or fl[-1] < w[-1]:
-            bad = True
-            ctx.fail("R37.1", (IO, "FilteredFlowWriter.add", add), f"add: path [{show(t)}]",
-                     "a record is handed to the file without a following flush: after the save hook the stream file may lack the finished flow")
-    ctx.require(bad or writing >= 1, "FilteredFlowWriter.add: no path writes a record to self.fo (writer shape not recognised)")
-    if not bad:
-        ctx.ok("R37.1", f"FilteredFlowWriter.add: flush follows the record on {writing} writing path(s)")
+    # ---- R37.1 flush after the record: the writer class Save really streams to, add resolved along the MRO
+    for wrel, wqual in _stream_writers(ctx):
+        hit = ctx.model.method(wrel, wqual, "add")
+        ctx.require(hit is not None, f"{wrel}::{wqual} has no add() along its MRO (writer shape not recognised)")
+        amod, add = hit
+        aqual = getattr(add, "_qual", f"{wqual}.add")
+        ctx.functions.add(f"{amod.rel}::{aqual}")
+        trs, eng = paths(add, resolver=_delegate_resolver(ctx, wrel, wqual),
+                         keep=lambda e: e[0] == "call" and (e[1].endswith("dump") or e[1].endswith(".write") or e[1].endswith(".flush") or e[1].endswith(".close")))
+        ctx.paths += len(trs)
+        writing = 0
+        bad = False
+        for t, how in trs:
+            if how != "return":
+                continue
+            w = [i for i, e in enumerate(t) if e[0] == "call" and ((e[1].endswith("dump") and any(a.split("=", 1)[-1] == "self.fo" for a in e[2])) or e[1] == "self.fo.write")]
+            if not w:
+                continue
+            writing += 1
+            fl = [i for i, e in enumerate(t) if e[0] == "call" and e[1] in ("self.fo.flush", "self.fo.close")]
+            if not fl or fl[-1] < w[-1]:
+                bad = True
+                ctx.fail("R37.1", (amod.rel, aqual, add), f"add: path [{show(t)}]",
+                         "a record is handed to the file without a following flush: after the save hook the stream file may lack the finished flow")
+        ctx.require(bad or writing >= 1, f"{aqual}: no path writes a record to self.fo (writer shape not recognised)")
+        if not bad:
+            via = f" (delegates inlined: {sorted(eng.inlined)})" if eng.inlined else ""
+            ctx.ok("R37.1", f"{aqual}: flush follows the record on {writing} writing path(s){via}")
 
     # ---- R37.1 one write of the complete record
     dump = ctx.func(TN, "dump")
@@ -206,14 +428,30 @@ def check(ctx):
         else:
             ctx.ok("R37.2", f"stream: {exc} from load -> {sorted(outcomes)}")
 
+    # ---- R37.3 loaders deliver each flow before reading the next record
+    ctx.guard(_lazy_loader, ctx, READFILE, "ReadFile.load_flows", "load_flow", "master.load_flow")
+    ctx.guard(_lazy_loader, ctx, VIEW, "View.load_file", "self.add", "View.add")
+
     expect(ctx, "R37.1", 2)
     expect(ctx, "R37.2", 3)
+    expect(ctx, "R37.3", 2)
 
 
 MUTANTS = [
     Mutant("no-flush", IO, "        tnetstring.dump(d, self.fo)\n        self.fo.flush()\n", "        tnetstring.dump(d, self.fo)\n", "R37.1"),
     Mutant("flush-before-record", IO, "        tnetstring.dump(d, self.fo)\n        self.fo.flush()\n", "        self.fo.flush()\n        tnetstring.dump(d, self.fo)\n", "R37.1"),
     Mutant("flush-only-when-filtered", IO, "        tnetstring.dump(d, self.fo)\n        self.fo.flush()\n", "        tnetstring.dump(d, self.fo)\n        if self.flt:\n            self.fo.flush()\n", "R37.1"),
+    # seed C37a: the filtered writer becomes a subclass delegating to FlowWriter.add, which never flushed
+    Mutant("delegate-to-unflushed-base", IO,
+           "class FilteredFlowWriter:\n    def __init__(self, fo: BinaryIO, flt: flowfilter.TFilter | None):\n        self.fo = fo\n        self.flt = flt\n\n"
+           "    def add(self, f: flow.Flow) -> None:\n        if self.flt and not flowfilter.match(self.flt, f):\n            return\n"
+           "        d = f.get_state()\n        tnetstring.dump(d, self.fo)\n        self.fo.flush()\n",
+           "class FilteredFlowWriter(FlowWriter):\n    def __init__(self, fo: BinaryIO, flt: flowfilter.TFilter | None):\n        super().__init__(fo)\n        self.flt = flt\n\n"
+           "    def add(self, f: flow.Flow) -> None:\n        if self.flt and not flowfilter.match(self.flt, f):\n            return\n"
+           "        super().add(f)\n", "R37.1"),
+    Mutant("write-helper-without-flush", IO, "        d = f.get_state()\n        tnetstring.dump(d, self.fo)\n        self.fo.flush()\n",
+           "        self._write(f)\n\n    def _write(self, f: flow.Flow) -> None:\n        d = f.get_state()\n        tnetstring.dump(d, self.fo)\n", "R37.1"),
+    Mutant("stream-through-plain-writer", SAVE, "self.stream = io.FilteredFlowWriter(f, self.filt)", "self.stream = io.FlowWriter(f)", "R37.1"),
     Mutant("dump-writes-chunks", TN, "    file_handle.write(dumps(value))\n",
            "    q: collections.deque = collections.deque()\n    _rdumpq(q, 0, value)\n    for chunk in q:\n        file_handle.write(chunk)\n", "R37.1"),
     Mutant("tag-read-tolerates-eof", TN, "    data_type = file_handle.read(1)[0]\n", "    data_type = (file_handle.read(1) or b\",\")[0]\n", "R37.2"),
@@ -223,5 +461,16 @@ MUTANTS = [
            "    data = memoryview(file_handle.read(int(data_length) + 1))\n    data, data_type = data[:-1], data[-1]\n", "R37.2"),
     Mutant("body-read-unbounded", TN, "file_handle.read(int(data_length))", "file_handle.read()", "R37.2"),
     Mutant("indexerror-not-mapped", IO, "                TypeError,\n                IndexError,\n                KeyError,", "                TypeError,\n                KeyError,", "R37.2"),
+    # seed C37b: the loader drains stream() into a list before the first flow is handed over
+    Mutant("loader-collects-list-first", READFILE,
+           "            for flow in freader.stream():\n                if self.filter and not self.filter(flow):\n                    continue\n",
+           "            flows = [flow for flow in freader.stream() if not self.filter or self.filter(flow)]\n            for flow in flows:\n", "R37.3"),
+    Mutant("loader-iterates-list-of-stream", READFILE, "for flow in freader.stream():", "for flow in list(freader.stream()):", "R37.3"),
+    Mutant("loader-appends-then-delivers", READFILE,
+           "        try:\n            for flow in freader.stream():\n                if self.filter and not self.filter(flow):\n                    continue\n"
+           "                await ctx.master.load_flow(flow)\n                cnt += 1\n",
+           "        pending = []\n        try:\n            for flow in freader.stream():\n                if self.filter and not self.filter(flow):\n                    continue\n"
+           "                pending.append(flow)\n            for flow in pending:\n                await ctx.master.load_flow(flow)\n                cnt += 1\n", "R37.3"),
+    Mutant("view-loader-sorts-first", VIEW, "for i in io.FlowReader(f).stream():", "for i in sorted(io.FlowReader(f).stream(), key=lambda x: x.timestamp_created):", "R37.3"),
     Mutant("handler-reraises-raw", IO, "                raise exceptions.FlowReadException(\"Invalid data format.\") from e", "                raise", "R37.2"),
 ]
